@@ -488,6 +488,34 @@ pub fn run(ctx: &Ctx) -> Rep {
     let (r4, x4) = merge_states(s4);
     rep.merge(r4);
 
+    // ---- (4b) valid six- and seven-card hands where shortcuts live -------------------------------------------
+    // every six-/seven-card hand with five (six-card) / six (seven-card) or more cards of one suit, in 8 seeded slot
+    // orders: validated ranking must equal unvalidated ranking on valid hands whatever the arrangement
+    let s4b6 = par_subsets::<6, X, _, _>(ctx, unit_stride, mk, |st, c, _| {
+        if drive::max_suit_count(c) >= 5 {
+            let mut rng = Rng::new(seed, drive::hand_code(c) ^ 0x4B6);
+            for _ in 0..8 {
+                let p = drive::permuted(c, &mut rng);
+                check_hand(st, &words_of(&p));
+            }
+            st.rep.distinct += 1;
+        }
+    });
+    let (r4b6, x4b6) = merge_states(s4b6);
+    rep.merge(r4b6);
+    let s4b7 = par_subsets::<7, X, _, _>(ctx, unit_stride, mk, |st, c, _| {
+        if drive::max_suit_count(c) >= 6 {
+            let mut rng = Rng::new(seed, drive::hand_code(c) ^ 0x4B7);
+            for _ in 0..8 {
+                let p = drive::permuted(c, &mut rng);
+                check_hand(st, &words_of(&p));
+            }
+            st.rep.distinct += 1;
+        }
+    });
+    let (r4b7, x4b7) = merge_states(s4b7);
+    rep.merge(r4b7);
+
     // ---- (5) seeded card-or-blank and mixed hands of sizes 5..7 ---------------
     let n_rand = ctx.pick(2_000, 1_000_000, 10_000_000);
     let chunks = 64usize;
@@ -525,7 +553,7 @@ pub fn run(ctx: &Ctx) -> Rep {
     rep.merge(r5);
 
     let mut acc = mk();
-    for x in x1.into_iter().chain(x1b).chain(x2).chain(x2b).chain(x2c).chain(x3).chain(x4).chain(x5) {
+    for x in x1.into_iter().chain(x1b).chain(x2).chain(x2b).chain(x2c).chain(x4b6).chain(x4b7).chain(x3).chain(x4).chain(x5) {
         for k in 0..8 {
             acc.valid[k] += x.valid[k];
             acc.invalid[k] += x.invalid[k];
@@ -564,7 +592,7 @@ pub fn run(ctx: &Ctx) -> Rep {
         "(1) all 2^32 words (a 1-in-16 share of the 2^16-word blocks in the checked leg) placed in {} next to distinct real cards, \
          and every word within Hamming distance 2 of a card or blank in every slot of every size; (2) for n=2..7 every set partition of the slots x every assignment of \
          {{card, blank, near-miss, arbitrary}} to the blocks x {} seeded instantiations, and all-card instantiations with each block in turn holding the smallest / largest card, and hands whose non-card words cancel under XOR / addition; (3) all ordered arrays over {{52 cards, blank}} for n in {:?}; \
-         (4) all 2,598,960 valid five-card hands; (5) {} seeded hands per size 5..7. distinct = enumerated cases (1,3,4) + hash-set count of the generated hands (2,5); \
+         (4) all 2,598,960 valid five-card hands, and every six-/seven-card hand with five/six or more suited cards in 8 seeded slot orders; (5) {} seeded hands per size 5..7. distinct = enumerated cases (1,3,4) + hash-set count of the generated hands (2,5); \
          every case is non-trivial (each runs the validity oracle against the crate)",
         if every_slot { "every slot of every size 2..7" } else { "one seeded slot of a Two (and of a Five for 1-in-16 blocks)" },
         k_inst, sizes, n_rand
